@@ -79,7 +79,7 @@ func init() {
 			if tier == "thorough" {
 				sizes = []int{0, 1, 31, 32, 33, 64, 95, 96, 128, 160, 192}
 			}
-			for shape := 0; shape < 24; shape++ {
+			for shape := 0; shape < 26; shape++ {
 				for _, n := range sizes {
 					if shape == 21 && n > 128 {
 						// measured: 390 s at 160 bytes, 1100 s with a solver timeout at 192: not claimed
@@ -96,7 +96,7 @@ func init() {
 			return rs
 		},
 		Assumptions: []string{
-			"type trees are the 24 catalogue entries of harness/dig/common.go, built by the real Event.ABIType (case-split, not solver-quantified)",
+			"type trees are the 26 catalogue entries of harness/dig/common.go, built by the real Event.ABIType (case-split, not solver-quantified)",
 			"data length and capacity are case-split; all content bytes (through the capacity) are solver-quantified, so every 32-byte word ranges over all 2^256 values including 2^63, 2^64-32, len, len-31",
 		},
 		Bounds: map[string]string{
@@ -130,7 +130,7 @@ func init() {
 					}
 				}
 			}
-			for shape := 0; shape < 24; shape++ {
+			for shape := 0; shape < 26; shape++ {
 				for _, a := range alens {
 					for _, b := range blens {
 						rs = append(rs, HRun{Pkg: "./dig", Fn: "ZZ_C09_Decode", Params: []int{shape, a, b}, Unwind: 400})
@@ -141,7 +141,7 @@ func init() {
 		},
 		Assumptions: []string{
 			"array length digits are symbolic ASCII digits without a leading zero; the number of digits is case-split",
-			"type trees are the 24 catalogue entries (harness/dig/common.go) built by the real Event.ABIType; their values (every 32-byte word, every bytes/string content) are solver-quantified, array and byte-string lengths are case-split",
+			"type trees are the 26 catalogue entries (harness/dig/common.go) built by the real Event.ABIType; their values (every 32-byte word, every bytes/string content) are solver-quantified, array and byte-string lengths are case-split",
 			"the reference ABI encoder and the reference row rule live in the harness (harness/dig/c09.go) and are compiled natively for replay",
 			"each Result is used twice with different values and lengths (repeated use of one decoder instance)",
 		},
@@ -238,11 +238,20 @@ func init() {
 				}
 			}
 			rs = append(rs, HRun{Pkg: "./dig", Fn: "ZZ_C13_Signature", Params: []int{0, -1}})
+			// two events of the same name in one process: each hash is of its own signature
+			for a := 0; a <= 6; a++ {
+				for b := a + 1; b <= 6; b++ {
+					if tier == "thorough" || b == a+1 || a == 0 {
+						rs = append(rs, HRun{Pkg: "./dig", Fn: "ZZ_C13_TwoEvents", Params: []int{a, b}})
+					}
+				}
+			}
 			return rs
 		},
 		Assumptions: []string{
 			"Keccak-256 (golang.org/x/crypto/sha3) is trusted: the engine computes it natively on concrete input; one known-answer vector (Transfer(address,address,uint256)) is evaluated as a smoke test, it is not solver evidence",
 			"gate: topic count 0..5 is case-split, all topic bytes are solver-quantified (match=0) or topic0 is set to the stored signature hash (match=1)",
+			"two events named alike with different inputs (ZZ_C13_TwoEvents, concrete: decided by the engine's evaluation, Keccak computed natively): each signature hash equals the hash of that event's own canonical signature, whatever was hashed before in the same process",
 			"signature: event name is a symbolic string; the input type trees are 7 catalogue shapes (tuples, tuple arrays, nested tuples, fixed and dynamic arrays)",
 		},
 		Bounds: map[string]string{
@@ -431,6 +440,9 @@ func init() {
 			for kind := 0; kind <= 2; kind++ {
 				rs = append(rs, HRun{Pkg: "./jrpc2", Fn: "ZZ_C08_Seq", Params: []int{kind, 2, 2, 1}, MaxPaths: 200000, Label: "refetch-yields-items-once"})
 			}
+			// a partition whose fetch fails fails the step (no gap is recorded), also when blocks carry no hashes
+			rs = append(rs, HRun{Pkg: "./shovel", Fn: "ZZ_C02_FaultsPlain", Params: []int{1, 2, 2, 1}, MaxPaths: 200000, Label: "failed-partition-fails-the-step", NoReplay: true},
+				HRun{Pkg: "./shovel", Fn: "ZZ_C02_FaultsPlain", Params: []int{1, 3, 3, 1}, MaxPaths: 200000, Label: "failed-partition-fails-the-step", NoReplay: true})
 			// the rows of one Insert call survive items that yield no row (logs of other events in between)
 			for m := 0; m < 4; m++ {
 				rs = append(rs, HRun{Pkg: "./dig", Fn: "ZZ_C11_Insert", Params: []int{m}, Label: "every-item-of-the-batch-reaches-copy"})
@@ -512,6 +524,13 @@ func init() {
 			}
 			// the no-row-beyond-position clause at every commit of reorg histories
 			rs = append(rs, HRun{Pkg: "./shovel", Fn: "ZZ_C03_Reorg", Params: []int{2, 1, 2, 2}}, HRun{Pkg: "./shovel", Fn: "ZZ_C03_Reorg", Params: []int{3, 1, 2, 3}})
+			// blocks without hashes (log-only plans): a failed partition cannot pass for a reorg
+			rs = append(rs, HRun{Pkg: "./shovel", Fn: "ZZ_C02_FaultsPlain", Params: []int{1, 2, 2, 1}, MaxPaths: 200000, NoReplay: true},
+				HRun{Pkg: "./shovel", Fn: "ZZ_C02_FaultsPlain", Params: []int{1, 3, 3, 1}, MaxPaths: 200000, NoReplay: true})
+			if tier == "thorough" {
+				rs = append(rs, HRun{Pkg: "./shovel", Fn: "ZZ_C02_FaultsPlain", Params: []int{2, 4, 2, 0}, MaxPaths: 200000, NoReplay: true},
+					HRun{Pkg: "./shovel", Fn: "ZZ_C02_FaultsPlain", Params: []int{1, 3, 2, 0}, MaxPaths: 200000, NoReplay: true})
+			}
 			// pruning old positions never moves a pair's position away from its rows
 			rs = append(rs, HRun{Pkg: "./shovel", Fn: "ZZ_C04_Prune", Params: []int{2, 2, 1, 1}, Label: "position-survives-pruning"},
 				HRun{Pkg: "./shovel", Fn: "ZZ_C04_Prune", Params: []int{2, 1, 2, 2}, Label: "position-survives-pruning"})
@@ -519,6 +538,7 @@ func init() {
 		},
 		Assumptions: append([]string{
 			"fault kinds: every model entry point (begin, each exec/query/COPY, commit, each RPC) may return an error, chosen by a solver Boolean per call; single=1 adds the at-most-one constraint, single=0 allows any subset; process death at a point equals an error at that point followed by discarding in-memory state, which is what the retry from the committed state models",
+			"ZZ_C02_FaultsPlain repeats the fault runs with a source whose blocks carry no hashes or parents (log-only data plans), where a partially loaded batch cannot be mistaken for a reorg; its counterexamples say WHICH partition's fetch fails, which a native run with real goroutines cannot be forced into, so they are replayed by the engine's concrete mode (same sequential goroutine order)",
 			"the retry runs against the same frozen chain so that 'as if the fault had not happened' is an equality of committed states with a fault-free step from the same pre-state",
 		}, convAssume...),
 		Bounds:  map[string]string{"quick": "(k, canonical prefix, batch, concurrency, single) in {(1,1,2,1,1),(2,1,2,2,1),(2,2,1,1,1),(1,1,2,2,0)} + two reorg runs", "thorough": "4 more configurations incl. multi-fault"},
@@ -704,6 +724,10 @@ func init() {
 			for cookie := 0; cookie <= 3; cookie++ {
 				rs = append(rs, HRun{Pkg: "./shovel/web", Fn: "ZZ_C19_Authn", Params: []int{cookie}})
 			}
+			// real peer addresses (no loopback oracle): 16 loopback / link-local / private / named / malformed addresses
+			for i := 0; i < 16; i++ {
+				rs = append(rs, HRun{Pkg: "./shovel/web", Fn: "ZZ_C19_Addr", Params: []int{i}, Flags: []string{"real-net"}})
+			}
 			pl, sl := []int{0, 1, 4}, []int{0, 1, 4, 5, 16}
 			if tier == "thorough" {
 				pl, sl = []int{0, 1, 2, 4, 8, 16}, []int{0, 1, 2, 4, 5, 8, 9, 15, 16, 17}
@@ -718,10 +742,11 @@ func init() {
 		Assumptions: []string{
 			"cut points (engine redirects, same textual cuts natively): session.Get/Set (Get succeeds iff the cookie state is 'minted by this process'), http.Redirect/Error, Request.ParseForm/FormValue, net.SplitHostPort (malformed = solver Boolean), net.ParseIP(host).IsLoopback (oracle Boolean), Handler.template, age.GenerateX25519Identity",
 			"both switches, the loopback oracle, malformed address, form parse failure are solver Booleans; the HTTP method is a symbolic string of 0,3..7 bytes (length case-split, bytes solver variables: every method name up to OPTIONS/CONNECT is covered); the cookie state is case-split; configured and supplied passwords are symbolic strings of case-split length; the generated password is 8 arbitrary random bytes rendered in hex",
+			"peer addresses (ZZ_C19_Addr, flag real-net): 16 concrete remote addresses (127.0.0.1, 127.9.8.7, ::1, IPv4-mapped loopback, private, public, 169.254/16, fe80:: with and without zone, unspecified, a host name, no port, empty) go through the real net.SplitHostPort / net.ParseIP / net.IP predicates, which the engine evaluates natively on the concrete strings; both switches stay solver Booleans; served without a session iff disabled, or loopback authentication not enforced and the peer is a loopback address",
 			"route table: read structurally from the SSA of cmd/shovel main (not a solver query): the five protected endpoints and any /save-* or /add-* path must be registered with a value produced by Authn",
 		},
 		Bounds:  map[string]string{"quick": "4 cookie states x methods of length 0,3..7 (symbolic bytes); password lengths {0(generated),1,4} x supplied lengths {0,1,4,5,16}", "thorough": "6 x 10 length pairs"},
-		Outside: []string{"age/session cryptography and cookies surviving a restart", "net.ParseIP itself"},
+		Outside: []string{"age/session cryptography and cookies surviving a restart", "net.ParseIP itself and peer addresses outside the 16 listed"},
 	})
 }
 
@@ -809,7 +834,7 @@ func init() {
 func init() {
 	register(&PropSpec{
 		ID:   "C15",
-		Pkgs: []string{"./shovel"},
+		Pkgs: []string{"./shovel", "./shovel/web"},
 		Runs: func(tier string) []HRun {
 			var rs []HRun
 			for pos := 0; pos < 22; pos++ {
@@ -822,9 +847,12 @@ func init() {
 				}
 			}
 			rs = append(rs, HRun{Pkg: "./shovel", Fn: "ZZ_C15_Chain"})
+			// the dashboard's /save-source: a source name that fails the check is not stored
+			rs = append(rs, HRun{Pkg: "./shovel/web", Fn: "ZZ_C15_SaveSource"})
 			return rs
 		},
 		Assumptions: []string{
+			"dashboard source names (ZZ_C15_SaveSource): the real /save-source handler with a name ending in a solver byte; the statement it issues on the pool is recorded (cut: pool Exec); a name is stored only if the byte is in [A-Za-z0-9_-] (stored source names are later spliced into application_name and the notification channel without another check)",
 			"non-interference formulation: one symbolic byte is appended to one configuration string position (22 positions of a skeleton configuration that exercises every SQL text builder: DDL incl. unique/index statements, alter table, reorg delete, reference lookup incl. a nested tuple component, notification, application_name); whenever validation accepts and a recorded SQL text is a function of that byte, z3 must prove the byte is in [A-Za-z0-9_-]; the positions that reach the schema statements (names, column name/type, unique/index entries) are also run with the integration disabled (enabled:false), whose table is still created and migrated",
 			"two validation paths: file (config.ValidateFix) and dashboard (config.CheckUserInput on the submitted integration only, then task construction without ValidateFix, as web.SaveIntegration + loadTasks do); HTTP/JSON plumbing of the dashboard is not executed",
 			"symbolic configuration bytes are ASCII (< 0x80): wstrings.Safe's unicode classes are modelled exactly for ASCII only; non-ASCII letters/digits (which Safe accepts) are outside the claim",
@@ -838,7 +866,7 @@ func init() {
 func init() {
 	register(&PropSpec{
 		ID:   "C18",
-		Pkgs: []string{"./shovel", "./jrpc2"},
+		Pkgs: []string{"./shovel", "./jrpc2", "./dig"},
 		Runs: func(tier string) []HRun {
 			var rs []HRun
 			loads := [][2]int{{2, 2}, {4, 4}, {3, 2}, {4, 2}}
@@ -852,6 +880,10 @@ func init() {
 				for b := a; b <= 4; b++ {
 					rs = append(rs, HRun{Pkg: "./jrpc2", Fn: "ZZ_C18_Shared", Params: []int{a, b}})
 				}
+			}
+			// two partitions run the real dig.Integration.Insert concurrently (own instances, shared connection mutex)
+			for k := 0; k <= 2; k++ {
+				rs = append(rs, HRun{Pkg: "./dig", Fn: "ZZ_C18_DigInsert", Params: []int{k}})
 			}
 			// the same with node failures: the cache's error paths run concurrently with the other task
 			fp := [][2]int{{4, 4}, {0, 0}, {0, 2}, {3, 3}}
@@ -879,7 +911,7 @@ func init() {
 		Assumptions: []string{
 			"reduced form: goroutine bodies (errgroup closures) are executed sequentially by the engine while every memory access, lock acquire/release, fork, join, WaitGroup signal/wait is logged with its thread; for every pair of conflicting accesses of different threads z3 decides, over one integer order variable per event, whether some schedule consistent with program order, fork/join, lock mutual exclusion and read consistency (every other read sees the write it saw on the recorded path) leaves the two accesses unordered",
 			"control flow and addresses are those of the recorded symbolic paths; races that only appear on paths where a read observes another write are not found (conservative: never invents a race); byte buffers are one location each; a map is one location (lookup, len and iteration read it, insertion and deletion write it); atomics conflict only with plain accesses",
-			"scenarios: Task.load/insert partition goroutines inside one Converge step (batch x concurrency); two tasks with any two of five data plans fetching one cached range concurrently and consuming the blocks as Task.load and dig.Insert do (copy into an own slice, read fields), also with node failures as solver Booleans so that the cache's error paths run concurrently with the other task (ZZ_C18_SharedFail); two tasks and the poller using the head cache concurrently, after a poller error or an announcement",
+			"scenarios: Task.load/insert partition goroutines inside one Converge step (batch x concurrency); two tasks with any two of five data plans fetching one cached range concurrently and consuming the blocks as Task.load and dig.Insert do (copy into an own slice, read fields), also with node failures as solver Booleans so that the cache's error paths run concurrently with the other task (ZZ_C18_SharedFail); two partitions running the real dig.Integration.Insert concurrently on their own Integration instances with uint256 / uint64 / byte-string filters (ZZ_C18_DigInsert: package-level or otherwise shared scratch state in the row builder); two tasks and the poller using the head cache concurrently, after a poller error or an announcement",
 			"a reported race is replayed by running the same harness natively with real goroutines under the Go race detector (go test -race); the race detector is used only as the replay oracle, never to decide",
 			"background head polling I/O, pgx, net/http internals are outside",
 		},
